@@ -12,66 +12,7 @@ import traceback
 from symx.files import SparseFile
 
 
-def mkfile(d, name=None):
-    patches = {int(a): bytes.fromhex(h) for a, h in d.get("patches", [])}
-    return SparseFile(int(d["size"]), patches, seed=int(d.get("seed", 0)), name=name)
-
-
-class RawStream:
-    """A parent/extent presenting an opaque byte array."""
-
-    def __init__(self, f, sector_size=512):
-        self.f = f
-        self.sector_size = sector_size
-        self.size = f._size
-
-    def read_sectors(self, sector, count):
-        self.f.seek(sector * self.sector_size)
-        return self.f.read(count * self.sector_size)
-
-    def _read(self, offset, length):
-        self.f.seek(offset)
-        return self.f.read(length)
-
-    def seek(self, off, whence=0):
-        return self.f.seek(off, whence)
-
-    def read(self, n=-1):
-        return self.f.read(n)
-
-    def tell(self):
-        return self.f.tell()
-
-
-# ---- openers: build the real object for an entry -----------------------------------------------------------
-
-def open_vhdx_new(files, opaque, p):
-    from dissect.hypervisor.disk import vhdx
-    from dissect.util.stream import AlignedStream
-
-    obj = vhdx.VHDX.__new__(vhdx.VHDX)
-    obj.fh = files["img"]
-    obj.size = p["size"]
-    obj.block_size, obj.sector_size = p["block_size"], p["sector_size"]
-    obj._sectors_per_block = obj.block_size // obj.sector_size
-    obj._chunk_ratio = ((2 ** 23) * obj.sector_size) // obj.block_size
-    obj.has_parent = bool(p.get("has_parent"))
-    obj.parent = RawStream(opaque["parent"], obj.sector_size) if obj.has_parent else None
-    obj.bat = vhdx.BlockAllocationTable(obj, p["bat_offset"])
-    AlignedStream.__init__(obj, obj.size)
-    return obj
-
-
-OPENERS = {
-    "vhdx_new": open_vhdx_new,
-}
-
-
-def register(name):
-    def deco(f):
-        OPENERS[name] = f
-        return f
-    return deco
+from symx.replay_entries import OPENERS, RawStream, mkfile, register  # noqa: E402,F401
 
 
 def do_call(obj, call):
@@ -111,8 +52,6 @@ def main():
     try:
         raw = open(sys.argv[1]).read() if len(sys.argv) > 1 else sys.stdin.read()
         desc = json.loads(raw)
-        from symx import replay_entries  # noqa: F401  (registers the remaining openers)
-
         files = {k: mkfile(v, name=v.get("name")) for k, v in desc.get("files", {}).items()}
         opaque = {k: mkfile(v) for k, v in desc.get("opaque", {}).items()}
         opener = OPENERS[desc["entry"]]
@@ -124,6 +63,9 @@ def main():
     try:
         obj = opener(files, opaque, desc.get("params", {}))
         res = do_call(obj, desc["call"])
+    except MemoryError as ex:
+        print(f"REPLAY-ERROR replay too large: {ex}")
+        return 2
     except Exception as ex:  # noqa: BLE001 - the real code may raise anything
         got = type(ex).__name__
         if "raises" in exp:
